@@ -154,7 +154,7 @@ CLAIMS = {
     'C14': dict(
         level='proof',
         technique='Coq: plan lemma (walk => action sequence of the real move/turn dynamics) + verified breadth-first check + kernel evaluation over COMPLETE outcome trees for walk-only parameter sets; exhaustive search over histories of the real step function for the rest; known findings K1/K2',
-        text='Coq theorems (Props/C14.v): GENERAL: every initial state of `empty` (every shape >= 4x4, all flags, all random outcomes) is winnable by a sequence of move actions over floor cells (rectangle walk + the exact room shape of C13 + the plan lemma), and so is every initial state of `memory` (every shape, colour set and outcome: up the middle column and along row 1 to the exit carrying the beacons' colour, never through the other exit); walk_plan -- a 4-connected walk over enterable cells is realised by one move action per step under '
+        text='Coq theorems (Props/C14.v): GENERAL: every initial state of `empty` (every shape >= 4x4, all flags, all random outcomes) is winnable by a sequence of move actions over floor cells (rectangle walk + the exact room shape of C13 + the plan lemma), and so is every initial state of `memory` (every shape, colour set and outcome: up the middle column and along row 1 to the exit carrying the colour of the beacons, never through the other exit); walk_plan -- a 4-connected walk over enterable cells is realised by one move action per step under '
              'chain [move_agent; turn_agent] for any heading, visiting exactly the walk; bfsP soundness; hence can_walk_to = true yields a plan to the goal '
              'that never enters a blocking or terminating cell; by kernel evaluation of `leaves`: EVERY initial state of 20 walk-only parameter sets '
              '(shipped crossing/empty/memory/four-rooms-7x7 from the regenerated Gen/Configs.v, and small ones) is winnable; K1 has a kernel-checked '
